@@ -11,6 +11,7 @@ import Hdl21Model.Drv.C19
 import Hdl21Model.Drv.C17
 import Hdl21Model.Drv.C15
 import Hdl21Model.Drv.PortRefs
+import Hdl21Model.Drv.GenRun
 open Lean
 
 /-- Line protocol: one JSON object per input line `{"prop": "C03", "op": ..., ...}`,
@@ -32,6 +33,7 @@ def dispatch (j : Json) : Except String Json := do
   | "C17" => Hdl21.Drv.C17.handle op j
   | "C15" => Hdl21.Drv.C15.handle op j
   | "F2" => Hdl21.Drv.PortRefs.handle op j
+  | "GEN" => Hdl21.Drv.GenRun.handle op j
   | "SEM" => Hdl21.Drv.Sem.handle op j
   | _ => .error s!"unknown prop {prop}"
 
